@@ -239,9 +239,6 @@ fn snapshot(root: &Path, rel: &Path, files: &mut BTreeMap<String, (Option<Vec<u8
         let name = e.file_name();
         let r = rel.join(&name);
         let rs = format!("/{}", r.display());
-        if rs.starts_with("/.vpmark") {
-            continue;
-        }
         let Ok(md) = std::fs::symlink_metadata(e.path()) else { continue };
         let meta = Meta { ino: md.ino(), mtime: md.modified().unwrap_or(SystemTime::UNIX_EPOCH) };
         if md.file_type().is_symlink() {
@@ -282,10 +279,14 @@ fn mode_of(m: u8) -> Mode {
 }
 
 fn run_proj(p: Proj) -> String {
-    let root = scratch_root();
-    std::fs::create_dir_all(&root).unwrap();
-    let root = root.canonicalize().unwrap();
+    let scratch = scratch_root();
+    std::fs::create_dir_all(scratch.join("r")).unwrap();
+    std::fs::create_dir_all(scratch.join("m")).unwrap();
+    let scratch = scratch.canonicalize().unwrap();
+    let root = scratch.join("r");
+    let marks = scratch.join("m");
     let rootb = root.display().to_string().into_bytes();
+    let marksb = marks.display().to_string().into_bytes();
     for d in &p.dirs {
         std::fs::create_dir_all(root.join(d.trim_start_matches('/'))).unwrap();
     }
@@ -294,7 +295,7 @@ fn run_proj(p: Proj) -> String {
         if let Some(parent) = path.parent() {
             std::fs::create_dir_all(parent).unwrap();
         }
-        std::fs::write(&path, subst(c, b"@R@", &rootb)).unwrap();
+        std::fs::write(&path, subst(&subst(c, b"@R@", &rootb), b"@M@", &marksb)).unwrap();
     }
     for (l, target) in &p.links {
         let path = root.join(l.trim_start_matches('/'));
@@ -303,7 +304,6 @@ fn run_proj(p: Proj) -> String {
         }
         let _ = std::os::unix::fs::symlink(target, &path);
     }
-    std::fs::create_dir_all(root.join(".vpmark")).unwrap();
     set_sentinel(&root, Path::new(""));
     let mut before = BTreeMap::new();
     snapshot(&root, Path::new(""), &mut before);
@@ -420,14 +420,14 @@ fn run_proj(p: Proj) -> String {
             // the run is stuck (threads cannot be recovered): report and leave the tree behind for removal by the caller
             println!("R {} {} T {} N {}", p.id, verdict, tr.join(","), choices.join(","));
             std::io::stdout().flush().unwrap();
-            let _ = std::fs::remove_dir_all(&root);
+            let _ = std::fs::remove_dir_all(&scratch);
             std::process::exit(3);
         }
         line = format!("{} T {} N {}", verdict, tr.join(","), choices.join(","));
     }
     if PANICKED.load(Ordering::SeqCst) && !line.starts_with("panic") {
         // some thread panicked although the run returned
-        let _ = std::fs::remove_dir_all(&root);
+        let _ = std::fs::remove_dir_all(&scratch);
         if let Some(c) = old_cwd {
             let _ = std::env::set_current_dir(c);
         }
@@ -442,7 +442,7 @@ fn run_proj(p: Proj) -> String {
     let mut files = vec![];
     for (k, (c, _)) in &after {
         match c {
-            Some(c) => files.push(format!("{}={}", hex(k.as_bytes()), hex(&subst(c, &rootb, b"@R@")))),
+            Some(c) => files.push(format!("{}={}", hex(k.as_bytes()), hex(&subst(&subst(c, &rootb, b"@R@"), &marksb, b"@M@")))),
             None => files.push(format!("{}=/", hex(k.as_bytes()))),
         }
     }
@@ -470,23 +470,23 @@ fn run_proj(p: Proj) -> String {
         }
     }
     // marker files written by counting commands
-    let mut marks = vec![];
-    if let Ok(rd) = std::fs::read_dir(root.join(".vpmark")) {
+    let mut mark_list = vec![];
+    if let Ok(rd) = std::fs::read_dir(&marks) {
         for e in rd.flatten() {
             let n = e.file_name().to_string_lossy().to_string();
             let c = std::fs::read(e.path()).unwrap_or_default();
-            marks.push(format!("{}={}", n, hex(&subst(&c, &rootb, b"@R@"))));
+            mark_list.push(format!("{}={}", n, hex(&subst(&c, &rootb, b"@R@"))));
         }
     }
-    marks.sort();
-    let _ = std::fs::remove_dir_all(&root);
+    mark_list.sort();
+    let _ = std::fs::remove_dir_all(&scratch);
     format!(
         "R {} {} F {} U {} M {}",
         p.id,
         line,
         files.join(";"),
         touched.into_iter().collect::<Vec<_>>().join(";"),
-        marks.join(";")
+        mark_list.join(";")
     )
 }
 
@@ -530,6 +530,7 @@ fn main() {
             (Some(p), "d") => p.dirs.push(s(t[1])),
             (Some(p), "l") => p.links.push((s(t[1]), s(t[2]))),
             (Some(_), "c") => {}
+            (Some(_), "o") => {}
             (Some(p), "s") => p.sched = Some(t[1..].iter().map(|x| x.parse().unwrap()).collect()),
             (Some(p), "p") => p.pp = Some((s(t[1]), t[2] == "1")),
             (Some(_), "E") => {
